@@ -16,6 +16,11 @@ structure Coh (d : Disk) : Prop where
   geo : Geo d
   buf : ∃ f, BufOk d.bpb f ∧ (d.fat = some f ∨ (d.fat = none ∧ FatOn d f))
 
+/-- the refinement invariant of the FAT model (`Lemmas/FsFatOps.lean`) implies coherence -/
+theorem coh_of_inv {d : Disk} (i : A2Verif.FsFat.Inv d) : Coh d := by
+  obtain ⟨f, c⟩ := i.coh
+  exact ⟨i.geo, ⟨f, ⟨c.size, c.bytes⟩, Or.inl c.isOpen⟩⟩
+
 theorem coh_sim {d : Disk} (h : Coh d) : ∃ d0, Sim (Par.of d) d0 d := by
   obtain ⟨f, hb, ht⟩ := h.buf
   refine ⟨{ d with fat := some f }, rfl, rfl, rfl, fun _ _ => rfl, geo_setFat h.geo _, h.geo, ⟨f, rfl, hb, ?_⟩⟩
